@@ -25,7 +25,7 @@ type World struct {
 	contracts   map[string]*FuncContract // key: pkgpath + "." + Name
 	byFn        map[*ssa.Function]*FuncContract
 	fnOf        map[*FuncContract]*ssa.Function
-	importAlias map[string]map[string]string // pkg path -> alias -> import path
+	importAlias map[string]map[string][]string // pkg path -> alias -> import paths (aliases may differ per file)
 	loadSecs    float64
 	preds       map[string]*Pred
 	pmMu        sync.Mutex
@@ -56,7 +56,7 @@ func (w *World) contractFor(fn *ssa.Function) *FuncContract {
 // loadWorld loads the packages that hold contracts (plus extras) from the repo's working tree.
 func loadWorld(repo, scratch string, extraPkgs []string) (*World, error) {
 	w := &World{repo: repo, scratch: scratch, contracts: map[string]*FuncContract{}, byFn: map[*ssa.Function]*FuncContract{},
-		fnOf: map[*FuncContract]*ssa.Function{}, importAlias: map[string]map[string]string{}, preds: map[string]*Pred{}}
+		fnOf: map[*FuncContract]*ssa.Function{}, importAlias: map[string]map[string][]string{}, preds: map[string]*Pred{}}
 	files, err := findContractFiles(repo)
 	if err != nil {
 		return nil, err
@@ -114,7 +114,7 @@ func loadWorld(repo, scratch string, extraPkgs []string) (*World, error) {
 	if nerr > 0 {
 		return nil, fmt.Errorf("%d package load errors (does /repo build?)", nerr)
 	}
-	prog, spkgs := ssautil.Packages(pkgs, ssa.InstantiateGenerics)
+	prog, spkgs := ssautil.Packages(pkgs, ssa.InstantiateGenerics|ssa.GlobalDebug)
 	prog.Build()
 	w.prog = prog
 	w.pkgs = pkgs
@@ -123,14 +123,22 @@ func loadWorld(repo, scratch string, extraPkgs []string) (*World, error) {
 		if !strings.HasPrefix(p.PkgPath, modulePath+"/") {
 			return
 		}
-		m := map[string]string{}
+		m := map[string][]string{}
+		add := func(alias, path string) {
+			for _, x := range m[alias] {
+				if x == path {
+					return
+				}
+			}
+			m[alias] = append(m[alias], path)
+		}
 		for _, f := range p.Syntax {
 			for _, imp := range f.Imports {
 				path, _ := strconv.Unquote(imp.Path.Value)
 				if imp.Name != nil {
-					m[imp.Name.Name] = path
+					add(imp.Name.Name, path)
 				} else {
-					m[filepath.Base(path)] = path
+					add(filepath.Base(path), path)
 				}
 			}
 		}
